@@ -263,6 +263,12 @@ func (tt *TermTable) divParts(x *Term, c uint64) (q, r *Term, ok bool) {
 				// q*c + K with K >= c:  (q + K/c)*c + K%c
 				return tt.Bin(OpAdd, qq, tt.Const(x.W, x.B.K/c)), tt.Const(x.W, x.B.K%c), true
 			}
+			if x.B.Op == OpConst {
+				// t + K with t + K%c < c:  quotient K/c, remainder t + K%c
+				if h2, c2 := bits.Add64(x.A.Hi, x.B.K%c, 0); c2 == 0 && h2 < c {
+					return tt.Const(x.W, x.B.K/c), tt.Bin(OpAdd, x.A, tt.Const(x.W, x.B.K%c)), true
+				}
+			}
 		}
 	}
 	if x.Op == OpAdd && x.B.Op == OpConst && x.B.K > mask(x.W)>>1 {
